@@ -87,6 +87,16 @@ def gen_case(rnd):
              filters=[(rnd.choice(names), gen_filter(rnd)) for _ in range(rnd.choice([1, 1, 2, 3]))])
     if rnd.random() < 0.3:
         q["mets"][0] = (mm, "count", None, [])
+    if rnd.random() < 0.3:
+        # a COMPUTED dimension (top operator of low precedence, written without outer parentheses) of any model, and a filter that names it under a
+        # tighter-binding operator: the dimension's VALUE is what must be compared, on the base model and on joined models alike
+        dm = rnd.choice(names)
+        e = (rnd.choice(["sub", "add"]), jg.jcol("c0"), jg.jcol("c1"))
+        q["dims"] = q["dims"][:1] + [(dm, e)]
+        d = ("dref", len(q["dims"]) - 1, e)
+        q["filters"].append((dm, rnd.choice([("cmp", rnd.choice([">=", "<", "<>"]), ("mul", d, sg.lit(rnd.choice([2, -1, 3]))), sg.lit(rnd.choice([0, 2, 4, -2]))),
+                                             ("cmp", rnd.choice([">=", "<"]), ("sub", sg.lit(rnd.choice([1, 3])), d), sg.lit(rnd.choice([0, 1, 2]))),
+                                             ("not", ("cmp", "=", ("mul", sg.lit(2), d), sg.lit(rnd.choice([0, 2, 4]))))])))
     return f, q
 
 
